@@ -14,7 +14,7 @@ pub const DEF: PropDef = PropDef {
     run,
     replay,
     level: "exploration",
-    rule: "metamorphic cases = (pattern class, suite, backend, a set of (direction, nonce, payload length) items with nonces from boundary values {0,1,2^32-1,2^32,2^63,2^64-2} and random 64-bit values, and a call script that writes and reads the items in arbitrary order with repetitions); oracle: every write of an item yields the same bytes every time, every read under the item's nonce returns the original payload every time, and the bytes equal the message a STATEFUL sender of an identically keyed session produces when positioned at that nonce. After a rekey - automatic, rekey_manually with BOTH keys in one call, one direction per call in opposite orders on the two sides, or automatic then manual - applied alike to the stateless objects and their stateful twins, the same equalities must hold. Thread stress: 8 threads share one &StatelessTransportState per endpoint and perform interleaved reads/writes; every result must equal the sequentially pre-computed one. Non-trivial = a script with at least one repeated or out-of-order read; distinct by (config, items, script)",
+    rule: "metamorphic cases = (pattern class, suite, backend, a set of (direction, nonce, payload length) items with nonces from boundary values {0,1,2^32-1,2^32,2^63,2^64-2} and random 64-bit values, and a call script that writes and reads the items in arbitrary order with repetitions); oracle: every write of an item yields the same bytes every time, every read under the item's nonce - into buffers of exactly the payload size, 1 / 7 / 15 / 16 / 17 / 100 spare bytes or 70 000 - returns the original payload every time, and the bytes equal the message a STATEFUL sender of an identically keyed session produces when positioned at that nonce. After a rekey - automatic, rekey_manually with BOTH keys in one call, one direction per call in opposite orders on the two sides, or automatic then manual - applied alike to the stateless objects and their stateful twins, the same equalities must hold. Thread stress: 8 threads share one &StatelessTransportState per endpoint and perform interleaved reads/writes; every result must equal the sequentially pre-computed one. Non-trivial = a script with at least one repeated or out-of-order read; distinct by (config, items, script)",
     technique: "metamorphic/differential property testing with proptest (stateless vs stateful sender; repeat/reorder invariance) + multi-threaded stress with a schedule-independent oracle",
     assumptions: &["thread interleavings are sampled by stress only: the harness does not own the scheduler, so a rare interleaving can be missed; the oracle is schedule-independent and cannot raise false alarms"],
     panic_is_violation: false,
@@ -83,7 +83,10 @@ fn oracle(c: &Case, acc: &mut Acc) -> CaseResult {
         let (w, r) = if it.r_to_i { (&tr, &ti) } else { (&ti, &tr) };
         let expect = first[k].as_ref().unwrap();
         if read {
-            let p = sl_read(r, it.nonce, expect, it.plen).map_err(|x| Fail::new(format!("{name}: read of item {it:?} failed: {}", e(&x))))?;
+            // the capacity of the caller's buffer (exact, a few spare bytes, a tag more, ample) is
+            // not an input of the function being tested: the result must not depend on it
+            let slack = [0usize, 1, 7, 15, 16, 17, 100, 70000][(k + it.plen + (it.nonce % 8) as usize) % 8];
+            let p = sl_read(r, it.nonce, expect, it.plen + slack).map_err(|x| Fail::new(format!("{name}: read of item {it:?} into a buffer of payload + {slack} bytes failed: {}", e(&x))))?;
             ensure!(p == payloads[k], "{name}: item {it:?}: read returned a different payload");
         } else {
             let m = sl_write(w, it.nonce, &payloads[k], it.plen + 16).map_err(|x| Fail::new(format!("{name}: write of item {it:?} failed: {}", e(&x))))?;
@@ -178,7 +181,8 @@ fn oracle(c: &Case, acc: &mut Acc) -> CaseResult {
             for round in 0..2 {
                 let m = sl_write(w, it.nonce, &payloads[k], it.plen + 16).map_err(|x| Fail::new(format!("{name}: write of item {it:?} after rekey failed: {}", e(&x))))?;
                 ensure!(m == want, "{name}: item {it:?} after a rekey (round {round}): stateless write differs from the rekeyed stateful sender");
-                let p = sl_read(r, it.nonce, &m, it.plen).map_err(|x| Fail::new(format!("{name}: read of item {it:?} after rekey failed: {}", e(&x))))?;
+                let slack = [0usize, 3, 15, 16, 40][(k + round) % 5];
+                let p = sl_read(r, it.nonce, &m, it.plen + slack).map_err(|x| Fail::new(format!("{name}: read of item {it:?} after rekey (buffer payload + {slack}) failed: {}", e(&x))))?;
                 ensure!(p == payloads[k], "{name}: item {it:?} after rekey: payload differs");
             }
         }
